@@ -10,7 +10,7 @@ Stateful line protocol for Model/Sym3.lean.
   geo K        -> [geoTotal 0, ..., geoTotal (K-1)]
   par K        -> [parTotal 0, ..., parTotal (K-1)]
   domain i j   -> T/F (inDomain) ; sector i j -> T/F ; sym i j -> 0/120 line flags
-  pinit [[assemNum,[[selfN,selfK,gridN,gridK,ownerN,ownerK,onOwn,[[i,j],...]],...]],...]
+  pinit [[assemNum,[[selfN,selfK,gridN,gridK,ownerN,ownerK,onOwn,[[i,j],...],orient,[[q,..],..]],...]],...]
                -> ok      the table below block level (gridN / ownerN = -1: none); the four operations update it
   sub          -> per child in order [assemNum,[block,...]] in the same format
   scalevals up|down [v,...]   with v = N | L[q,..] | S[q] | A[q,..]   -> the scaled values, same format
@@ -34,7 +34,7 @@ def showAssem (a : Assem) : String :=
 
 def showState (s : State) : String :=
   "full=" ++ showBool s.full ++ " next=" ++ toString s.next ++ " convAdded=" ++ showInts s.convAdded
-    ++ " edgeAdded=" ++ showInts s.edgeAdded ++ " kids=" ++ showList showAssem s.kids
+    ++ " edgeAdded=" ++ showInts s.edgeAdded ++ " convList=" ++ showBool s.convList ++ " kids=" ++ showList showAssem s.kids
     ++ " names=" ++ showInts ((s.kids.map (·.id)).mergeSort (fun a b => decide (a ≤ b)))
 
 def empty : State × Sub := (⟨[], false, 0, true, [], false, []⟩, [])
@@ -48,11 +48,14 @@ def mkObj? (n k : Int) : Option Obj := if n = -1 then none else some (n, k.toNat
 
 def parsePBlock? (s : String) : Option PBlock := do
   match (← splitTop s) with
-  | [sn, sk, gn, gk, on, ok, oo, pins] =>
+  | [sn, sk, gn, gk, on, ok, oo, pins, orient, bnd] =>
     let sn ← parseInt? sn; let sk ← parseInt? sk; let gn ← parseInt? gn; let gk ← parseInt? gk
     let on ← parseInt? on; let ok ← parseInt? ok; let oo ← parseInt? oo
     let pins ← parseList? parsePair? pins
-    some { self := (sn, sk.toNat), grid := mkObj? gn gk, owner := mkObj? on ok, onOwn := oo != 0, pins := pins }
+    let orient ← parseInt? orient
+    let bnd ← parseList? parseRatList? bnd
+    some { self := (sn, sk.toNat), grid := mkObj? gn gk, owner := mkObj? on ok, onOwn := oo != 0, pins := pins,
+           orient := orient, bnd := bnd }
   | _ => none
 
 def parseEntry? (s : String) : Option (Int × List PBlock) := do
@@ -82,7 +85,8 @@ def showObj : Option Obj → String
 
 def showPBlock (b : PBlock) : String :=
   "[" ++ showObj (some b.self) ++ "," ++ showObj b.grid ++ "," ++ showObj b.owner ++ "," ++ (if b.onOwn then "1" else "0")
-    ++ "," ++ showList (fun p => "[" ++ toString p.1 ++ "," ++ toString p.2 ++ "]") b.pins ++ "]"
+    ++ "," ++ showList (fun p => "[" ++ toString p.1 ++ "," ++ toString p.2 ++ "]") b.pins
+    ++ "," ++ toString b.orient ++ "," ++ showList (showList showRat) b.bnd ++ "]"
 
 def showSub (s : State) (sub : Sub) : String :=
   showList (fun a => "[" ++ toString a.id ++ "," ++ showList showPBlock (subOf sub a.id) ++ "]") s.kids
